@@ -4,6 +4,7 @@ mod igcp;
 mod red;
 mod thermo;
 mod util;
+mod virial;
 mod zoo;
 
 fn main() {
@@ -12,6 +13,7 @@ fn main() {
         "c11" => c11::run(&args),
         "thermo" => thermo::run(&args),
         "igcp" => igcp::run(&args),
+        "virial" => virial::run(&args),
         "zoo" => {
             for m in zoo::zoo(true) {
                 println!("{} n={} family={}", m.name, m.n, m.family);
